@@ -495,3 +495,102 @@ M("c01-quadform-iterative-wrong", "C01", COMPILER,
   '''            result_stack.append(lambda x, vf=vec_fn, Q=Q: float(vf(x) @ Q @ vf(x)))''', '''            result_stack.append(lambda x, vf=vec_fn, Q=Q: float(vf(x) @ vf(x)))''', "R01.7", "QuadraticForm")
 M("c01-vectorpowersum-closure-wrong", "C01", COMPILER,
   '''        return lambda x, idx=indices, k=power: float(np.sum(x[idx] ** k))''', '''        return lambda x, idx=indices, k=power: float(np.sum(x[idx]) ** k)''', "R01.7", "VectorPowerSum")
+
+# ----------------------------------------------------------------------------- C02
+M("c02-quotient-sign", "C02", AUTODIFF,
+  '''            numerator = _simplify_sub(
+                _simplify_mul(right, d_left), _simplify_mul(left, d_right)
+            )
+            denominator = _simplify_mul(right, right)
+            return _simplify_div(numerator, denominator)''', '''            numerator = _simplify_sub(
+                _simplify_mul(left, d_right), _simplify_mul(right, d_left)
+            )
+            denominator = _simplify_mul(right, right)
+            return _simplify_div(numerator, denominator)''', "R02.1", "_gradient_cached[BinaryOp /]")
+M("c02-product-rule-swapped", "C02", AUTODIFF,
+  '''            term1 = _simplify_mul(left, d_right)
+            term2 = _simplify_mul(right, d_left)
+            return _simplify_add(term1, term2)''', '''            term1 = _simplify_mul(left, d_left)
+            term2 = _simplify_mul(right, d_right)
+            return _simplify_add(term1, term2)''', "R02.1", "_gradient_cached[BinaryOp *]")
+M("c02-cos-rule-sign", "C02", AUTODIFF,
+  '''            return _simplify_mul(_simplify_neg(sin(operand)), d_operand)''', '''            return _simplify_mul(sin(operand), d_operand)''', "R02.1", "_gradient_cached[UnaryOp cos]")
+M("c02-atan-rule-wrong", "C02", AUTODIFF,
+  '''            # d/dx(atan(a)) = 1 / (1 + a^2) * da
+            inner = _simplify_add(Constant(1.0), _simplify_mul(operand, operand))''', '''            # d/dx(atan(a)) = 1 / (1 + a^2) * da
+            inner = _simplify_sub(Constant(1.0), _simplify_mul(operand, operand))''', "R02.1", "_gradient_cached[UnaryOp atan]")
+M("c02-chain-factor-dropped", "C02", AUTODIFF,
+  '''            return _simplify_mul(cosh(operand), d_operand)''', '''            return cosh(operand)''', "R02.1", "_gradient_cached[UnaryOp sinh]")
+M("c02-iterative-tanh-wrong", "C02", AUTODIFF,
+  '''                tanh_squared = _simplify_mul(current, current)
+                sech2 = _simplify_sub(Constant(1.0), tanh_squared)
+                results[node_id] = _simplify_mul(sech2, d_operand)''', '''                tanh_squared = _simplify_mul(current, current)
+                sech2 = _simplify_add(Constant(1.0), tanh_squared)
+                results[node_id] = _simplify_mul(sech2, d_operand)''', "R02.1", "_gradient_iterative[UnaryOp tanh]")
+M("c02-power-rule-exponent", "C02", AUTODIFF,
+  '''                    coeff = Constant(n)
+                    power = _simplify_pow(left, Constant(n - 1))
+                    return _simplify_mul(_simplify_mul(coeff, power), d_left)''', '''                    coeff = Constant(n)
+                    power = _simplify_pow(left, Constant(n))
+                    return _simplify_mul(_simplify_mul(coeff, power), d_left)''', "R02.1", "_gradient_cached[BinaryOp ** const n]")
+M("c02-simplify-mul-zero-returns-other", "C02", AUTODIFF,
+  '''    if _is_zero(left) or _is_zero(right):
+        return Constant(0.0)
+    if _is_one(left):
+        return right''', '''    if _is_zero(left):
+        return right
+    if _is_zero(right):
+        return Constant(0.0)
+    if _is_one(left):
+        return right''', "R02.2", "_simplify_mul")
+M("c02-simplify-sub-zero-left", "C02", AUTODIFF,
+  '''    if _is_zero(left):
+        return _simplify_neg(right)
+    return left - right''', '''    if _is_zero(left):
+        return right
+    return left - right''', "R02.2", "_simplify_sub")
+M("c02-is-zero-accepts-parameter", "C02", AUTODIFF,
+  '''    return isinstance(expr, Constant) and expr.value == 0.0''', '''    return hasattr(expr, "value") and expr.value == 0.0''', "R02.2", "_is_zero")
+M("c02-recursion-other-wrt", "C02", AUTODIFF,
+  '''        d_left = _gradient_cached(left, wrt)
+        d_right = _gradient_cached(right, wrt)''', '''        d_left = _gradient_cached(left, wrt)
+        d_right = _gradient_cached(right, left if isinstance(left, Var) else wrt)''', "R02.1", "_gradient_cached")
+M("c02-l2norm-elem-term", "C02", AUTODIFF,
+  '''                term = _simplify_mul(_simplify_div(elem, expr), d_elem)''', '''                term = _simplify_mul(_simplify_div(expr, elem), d_elem)''', "R02.5", "gradient_l2_norm")
+M("c02-dot-both-case-drops-one", "C02", AUTODIFF,
+  '''                    return _simplify_add(
+                        right_elems[left_index], left_elems[right_index]
+                    )''', '''                    return right_elems[left_index]''', "R02.5", "gradient_dot_product")
+M("c02-vector-unary-sum-tan", "C02", AUTODIFF,
+  '''                    cos_x = UnaryOp(var, "cos")
+                    cos_sq = BinaryOp(cos_x, Constant(2.0), "**")
+                    return BinaryOp(Constant(1.0), cos_sq, "/")
+                elif op == "abs":''', '''                    cos_x = UnaryOp(var, "cos")
+                    return BinaryOp(Constant(1.0), cos_x, "/")
+                elif op == "abs":''', "R02.5", "gradient_vector_unary_sum[tan]")
+M("c02-vector-power-sum-k2", "C02", AUTODIFF,
+  '''                elif k == 2:
+                    return BinaryOp(Constant(2.0), var, "*")
+                else:
+                    # k * x^(k-1)
+                    power_term = BinaryOp(var, Constant(k - 1), "**")''', '''                elif k == 2:
+                    return BinaryOp(Constant(2.0), var, "+")
+                else:
+                    # k * x^(k-1)
+                    power_term = BinaryOp(var, Constant(k - 1), "**")''', "R02.5", "gradient_vector_power_sum[k=2]")
+M("c02-functions-sinh-builds-cosh", "C02", "src/optyx/core/functions.py",
+  '''    return UnaryOp(_ensure_expr(x), "sinh")''', '''    return UnaryOp(_ensure_expr(x), "cosh")''', "R02.1", "functions.sinh")
+M("c02-variable-leaf-inverted", "C02", AUTODIFF,
+  '''        if expr.name == wrt.name:
+            return Constant(1.0)
+        else:
+            return Constant(0.0)''', '''        if expr.name != wrt.name:
+            return Constant(1.0)
+        else:
+            return Constant(0.0)''', "R02.3", "_gradient_cached[Variable]")
+M("c02-linear-combination-coeff-index", "C02", AUTODIFF,
+  '''                if var.name == wrt.name:
+                    return Constant(float(coeffs[i]))
+            return Constant(0.0)''', '''                if var.name == wrt.name:
+                    return Constant(float(coeffs[0]))
+            return Constant(0.0)''', "R02.5", "gradient_linear_combination")
